@@ -164,8 +164,8 @@ theorem widen_hash (k v : Ty) (r r' : Rng) (hr : r'.sub r = true) (b : Ty) (hb :
     · cases b <;> simp [sameNullary] at h
     · right; unfold asgRecv at h ⊢
       cases b <;> simp only [] at h ⊢ <;> (first | contradiction | skip)
-      · simp only [Bool.and_eq_true] at h ⊢; exact ⟨⟨Rng.sub_trans hr h.1.1, h.1.2⟩, h.2⟩
-      · simp only [Bool.and_eq_true] at h ⊢; exact ⟨Rng.sub_trans hr h.1, h.2⟩
+      · rw [Bool.and_eq_true] at h ⊢; exact ⟨Rng.sub_trans hr h.1, h.2⟩
+      · rw [Bool.and_eq_true] at h ⊢; exact ⟨Rng.sub_trans hr h.1, h.2⟩
   · rw [asg_notUndef_r, hnt] at h ⊢
     simp [Ty.isAny] at h ⊢
     unfold asgRecv at h; simp at h
